@@ -210,6 +210,8 @@ def rule_occurrence(ck, F, X):
                     continue
                 if tag == "attribute" and a["ptag"] in ("sequence", "choice", "all"):
                     continue
+                if a["ptag"] in ("complexType", "extension") and (a["pmin"], a["pmax"]) != (None, None):
+                    continue  # complexType / extension carry no occurrence attributes
                 n_rows += 1
                 parent = fde.Node(a["ptag"], {"minOccurs": a["pmin"], "maxOccurs": a["pmax"]}, name="parent")
                 node = fde.Node(tag, {"minOccurs": a["min"], "maxOccurs": a["max"], "use": a["use"], "ref": "p:X" if "ref" in label else None,
